@@ -52,4 +52,9 @@ Msgs2  == {[pre |-> <<>>, upd |-> <<x, y>>] : x \in UpdRRs, y \in UpdRRs}
 Msgs2p == {[pre |-> <<p, q>>, upd |-> <<RR(NA, "IN", "A", 300, 2)>>] : p \in PreRRs, q \in PreRRs}
 MC_MsgsAll   == Msgs1 \cup Msgs2 \cup Msgs2p
 MC_MsgsHist  == Msgs1 \cup Msgs2p
+\* quick: two update RRs only from the well-formed forms at the non-apex owner, fewer start zones
+AtNA   == {z \in AddRRs \cup DelSets \cup DelRRs : z.o = NA}
+Msgs2q == {[pre |-> <<>>, upd |-> <<x, y>>] : x \in AtNA, y \in AtNA}
+MC_MsgsQuick == Msgs1 \cup Msgs2q
+MC_SomeZones == {Z \in MC_AllZones : Cardinality({r \in Z : r[1] = NA}) <= 2 /\ <<AP, "A", 2>> \notin Z}
 =============================================================================
